@@ -862,6 +862,11 @@ def _(g):
                         lambda o: o["x"].symmetrize(o["grps"]))
                 yield V(f"{_sh(sh)}-{dname}-grps1", lambda mk=mk, n=n: {"x": mk(), "grps": ia([0, n - 1])},
                         lambda o: o["x"].symmetrize(o["grps"]))
+    # two groups (needs order 4): generic data and data already symmetric under both
+    for dname, mk in (("generic", lambda: g.T((2, 2, 2, 2))), ("symmetric", lambda: ttb.tensor(_sym_data(g, (2, 2, 2, 2))))):
+        for vn, kw in (("", {}), ("-v1", {"version": 1})):
+            yield V(f"2x2x2x2-{dname}-2grps{vn}", lambda mk=mk: {"x": mk(), "grps": ia([[0, 1], [2, 3]])},
+                    lambda o, kw=kw: o["x"].symmetrize(o["grps"], **kw))
 
 
 @reg("tensor.mask")
@@ -928,9 +933,8 @@ def _grown_extra(base, make):
     """Add variants on a receiver produced by growth (thorough)."""
     def gen(g):
         yield from base(g)
-        if g.thorough:
-            for nm, build, call in make(g):
-                yield V(f"grown-{nm}", build, call)
+        for nm, build, call in make(g):
+            yield V(f"grown-{nm}", build, call)
     return gen
 
 
@@ -1883,6 +1887,17 @@ def _(g):
                 lambda o, wp=wp: o["x"].score(o["y"], weight_penalty=wp))
         yield V(f"{hname}-same", lambda hb=hb: {"x": hb(), "y": hb()}, lambda o: o["x"].score(o["y"]))
         yield V(f"{hname}-threshold", lambda hb=hb: {"x": hb(), "y": hb()}, lambda o: o["x"].score(o["y"], threshold=0.5))
+
+        # non-initial state: a receiver already in normal form (normalised in place), matched against the same
+        # components listed in the other order (the best matching is not the identity)
+        def fb(hb=hb, R=R):
+            x = hb()
+            x.normalize()
+            y = hb()
+            if R >= 2:
+                y.arrange(permutation=list(range(R - 1, -1, -1)))
+            return {"x": x, "y": y}
+        yield V(f"{hname}-normalized-reordered", fb, lambda o: o["x"].score(o["y"]))
 
 
 @reg("ktensor.update")
